@@ -48,10 +48,10 @@ let show_range = function
 let show_optdoc = function None -> "none" | Some d -> "some:" ^ hex (encode_utf8 d)
 let show_optn = function None -> "none" | Some x -> string_of_n x
 
-(* lsp_o2p <hexsrc> <offset> <line>  ->  P | line,character *)
+(* lsp_o2p <hexsrc> <offset>  ->  P | line,character *)
 let () = register "lsp_o2p" (fun args ->
     match args with
-    | [h; o; l] -> show_pos (offset_to_lsp_position (doc_of_hex h) (n_of_string o) (n_of_string l))
+    | [h; o] -> show_pos (offset_to_lsp_position (doc_of_hex h) (n_of_string o))
     | _ -> "error\targs")
 
 (* lsp_lc2o <hexsrc> <line> <character> -> offset *)
@@ -61,7 +61,7 @@ let () = register "lsp_lc2o" (fun args ->
     | _ -> "error\targs")
 
 (* lsp_doc <hexsrc> <maxline> <maxchar>: everything about one document on one line:
-   o2p=<for o in 0..len+2, with line = line_of s o (0 off a boundary)>;..|lc2o=<for l in 0..maxline, c in 0..maxchar>,..|whole=l,c *)
+   o2p=<for o in 0..len+2: position@line_of(b|n = boundary or not)>;..|lc2o=<for l in 0..maxline, c in 0..maxchar>,..|whole=l,c *)
 let () = register "lsp_doc" (fun args ->
     match args with
     | [h; ml; mc] ->
@@ -70,7 +70,7 @@ let () = register "lsp_doc" (fun args ->
       let ml = int_of_string ml and mc = int_of_string mc in
       let o2p = List.init (len + 3) (fun o ->
           let o = n_of_int o in
-          show_pos (offset_to_lsp_position s o (line_of s o)) ^ "@" ^ string_of_n (line_of s o)
+          show_pos (offset_to_lsp_position s o) ^ "@" ^ string_of_n (line_of s o)
           ^ (if is_boundary s o then "b" else "n")) in
       let lc = List.concat (List.init (ml + 1) (fun l -> List.init (mc + 1) (fun c ->
           string_of_n (line_char_to_offset s (n_of_int l) (n_of_int c))))) in
